@@ -69,6 +69,42 @@ fn run_kind(plan: &mut Plan, gen: Option<(Profile, usize)>) -> RunOut {
     }
 }
 
+/// Fixed corner scenarios run against `std` side by side (everything here is O(1) although the lengths are huge:
+/// zero-sized elements occupy no memory).
+fn corner() -> Vec<String> {
+    use bumpalo::{collections::Vec as BVec, Bump};
+    use std::panic::{catch_unwind, AssertUnwindSafe};
+    let mut fails = vec![];
+    let mut check = |scenario: &str, b: Result<String, ()>, s: Result<String, ()>| {
+        let show = |r: &Result<String, ()>| match r { Ok(x) => x.clone(), Err(()) => "panic".to_string() };
+        if b != s {
+            fails.push(format!("ORACLE C17 corner-std-differs plan=0 op=0 scenario={} bumpalo=[{}] std=[{}]", scenario, show(&b), show(&s)));
+        }
+    };
+    static UNITS: [(); usize::MAX] = [(); usize::MAX];
+    for n in [0usize, 1, 5, usize::MAX - 1, usize::MAX] {
+        let src: &[()] = &UNITS[..n];
+        // Vec<()> -> Box<[()]>: the box owns exactly the vector's elements
+        let b = catch_unwind(AssertUnwindSafe(|| {
+            let bump = Bump::new();
+            let mut v: BVec<()> = BVec::new_in(&bump);
+            v.extend_from_slice_copy(src);
+            let (l0, c0) = (v.len(), v.capacity());
+            let bx = v.into_boxed_slice();
+            format!("len={} cap={} boxlen={}", l0, c0, bx.len())
+        })).map_err(|_| ());
+        let s = catch_unwind(AssertUnwindSafe(|| {
+            let mut v: Vec<()> = Vec::new();
+            v.extend_from_slice(src);
+            let (l0, c0) = (v.len(), v.capacity());
+            let bx = v.into_boxed_slice();
+            format!("len={} cap={} boxlen={}", l0, c0, bx.len())
+        })).map_err(|_| ());
+        check(&format!("zst-vec-into-boxed-slice:n={}", n), b, s);
+    }
+    fails
+}
+
 fn main() {
     let args: Vec<String> = std::env::args().collect();
     let toks: Vec<&str> = args.iter().map(|s| s.as_str()).collect();
@@ -118,9 +154,19 @@ fn main() {
                 do_plan(&mut plan, Some((prof, n_ops_per)), &mut out);
             }
         }
+        "corner" => {
+            for f in corner() {
+                writeln!(out, "{}", f).unwrap();
+            }
+        }
         "replay" => {
             let path = toks.get(2).expect("replay <file>");
             let text = std::fs::read_to_string(path).expect("read plan file");
+            if text.lines().any(|l| l.trim() == "CORNER") {
+                for f in corner() {
+                    writeln!(out, "{}", f).unwrap();
+                }
+            }
             for mut plan in Plan::parse(&text) {
                 do_plan(&mut plan, None, &mut out);
             }
